@@ -660,7 +660,11 @@ func (e *Engine) store(st *State, l *Loc, v *Term) {
 
 // name the value through a fresh symbol when it grows too large (keeps VCs linear).
 func (e *Engine) compact(st *State, v *Term, hint string) *Term {
-	if v.Size() < 400 {
+	limit := 400
+	if v.S == IntSort || v.S == BoolSort {
+		limit = 40 // scalar joins are named early: arithmetic goals should see a symbol, not a nest of ites
+	}
+	if v.Size() < limit {
 		return v
 	}
 	n := Fresh("t$"+hint, v.S)
